@@ -40,6 +40,23 @@ REVIEWED = [
 ]
 
 
+def _without_helpers(F, comp):
+    comp = set(comp)
+    core = set(comp)
+    for p in sorted(comp):
+        g = F.fns.get(p)
+        if g is None or g.vis == "pub" or g.impl_trait or g.kind not in ("Fn", "AssocFn"):
+            continue
+        if any(cs.callee == p for cs in g.calls()):
+            continue     # recursive on its own
+        if any(re.search(r"\b%s\b" % re.escape(g.name), pat.replace("\\", "")) for pat, _k, _r in REVIEWED):
+            continue     # named in the reviewed table: part of the reviewed recursion itself
+        callers = [q for q in comp if q != p and q in F.fns and any(cs.callee == p for cs in F.fns[q].calls())]
+        if callers and all(F.fns[q].file == g.file for q in callers):
+            core.discard(p)
+    return core
+
+
 def classify(F, roots):
     """-> list of dicts {members, sig, hard_edges, kind, reason}; kind None = unreviewed"""
     comps, seen = F.sccs_rec(roots)
@@ -55,5 +72,15 @@ def classify(F, roots):
             if re.search(pat, sig):
                 kind, reason = k, r
                 break
+        if kind is None:
+            # a reviewed recursive function split into private helpers (one per token kind, ...) is the same recursion:
+            # drop members that are private same-file helpers called from another member and not recursive on their own
+            core = _without_helpers(F, comp)
+            if core and core != set(comp):
+                sig2 = signature(core)
+                for pat, k, r in REVIEWED:
+                    if re.search(pat, sig2):
+                        kind, reason = k, r + " (through the private helpers %s)" % ", ".join(sorted(short(x).rsplit("::", 1)[-1] for x in set(comp) - core))
+                        break
         out.append({"members": comp, "sig": sig, "hard": hard, "kind": kind, "reason": reason})
     return out, len(seen), dropped
